@@ -14,6 +14,7 @@ pub fn body_res(a: u32) -> Result<u64, String> { Ok(0) }
 pub fn stale(key: &String, v: &u64) -> bool { false }
 pub fn keep(key: &String, v: &u64) -> bool { true }
 pub fn keep_res(key: &String, v: &Result<u64, String>) -> bool { true }
+pub fn stale_res(key: &String, v: &Result<u64, String>) -> bool { false }
 
 // ---- sync, global scope
 #[cache(limit = 8, policy = "lru")]
@@ -156,6 +157,22 @@ pub fn g_tag_case(a: u32, b: String) -> u64 { body2(a, b) }
 
 #[cache_async(limit = 8, name = "A_CaseName", tags = ["UserData"], events = ["Evt_X"], dependencies = ["G_CaseName"])]
 pub async fn a_tag_case(a: u32, b: String) -> u64 { body2(a, b) }
+
+// ---- ttl together with invalidate_on (the lookup must still honour the ttl); Result together with invalidate_on
+#[cache(limit = 8, ttl = 30, invalidate_on = stale)]
+pub fn g_inval_ttl(a: u32, b: String) -> u64 { body2(a, b) }
+
+#[cache(scope = "thread", limit = 8, ttl = 30, invalidate_on = stale)]
+pub fn t_inval_ttl(a: u32, b: String) -> u64 { body2(a, b) }
+
+#[cache_async(limit = 8, ttl = 30, invalidate_on = stale)]
+pub async fn a_inval_ttl(a: u32, b: String) -> u64 { body2(a, b) }
+
+#[cache(limit = 8, invalidate_on = stale_res)]
+pub fn g_res_inval(a: u32) -> Result<u64, String> { body_res(a) }
+
+#[cache_async(limit = 8, invalidate_on = stale_res)]
+pub async fn a_res_inval(a: u32) -> Result<u64, String> { body_res(a) }
 
 // ---- max_memory spellings: GB suffix, plain byte count
 #[cache(limit = 4, max_memory = "1GB")]
